@@ -232,10 +232,10 @@ class VCSym(VCBase):
         self.ctx.run.record(ob)
         return bool(ok)
 
-    def record(self, label, ok, backend, time_s=0.0, detail=""):
+    def record(self, label, ok, backend, time_s=0.0, detail="", model=None):
         """obligation discharged (or not) by a back end other than z3 (sympy ideal membership, evaluation)"""
         ob = core.Obligation("%s/%s" % (self.name, label), "discharged" if ok else "refuted", backend,
-                             time_s, self.ctx.path_id, {} if not ok else None, detail, 1)
+                             time_s, self.ctx.path_id, (model or {}) if not ok else None, detail, 1)
         self.ctx.run.record(ob)
         return bool(ok)
 
@@ -520,7 +520,7 @@ class VCConc(VCBase):
         self.results.append(("%s/%s" % (self.name, label), bool(ok), detail))
         return bool(ok)
 
-    def record(self, label, ok, backend, time_s=0.0, detail=""):
+    def record(self, label, ok, backend, time_s=0.0, detail="", model=None):
         self.results.append(("%s/%s" % (self.name, label), bool(ok), detail))
         return bool(ok)
 
